@@ -319,4 +319,30 @@ def _nsum_levin_zero_weight(inp):
     return inp.get("method") == "levin" and str(inp.get("outcome", "")).startswith("raised ValueError: levin: zero weight")
 
 
+
+@predicate("pow_half_integer_exponent_above_2^13")
+def _pow_half_big(inp):
+    """libelefun.mpf_pow with t = n/2 (n odd) computes mpf_pow_int(sqrt(s) at prec+10 bits, n): the relative error of the square
+    root is amplified by n, whatever ln s is: about n*2^-(prec+10), above 2^(4-p) once n exceeds ~2^14."""
+    c = inp["case"]
+    if c.get("fun") != "pow" or "y" not in c:
+        return False
+    my, ey = int(c["y"][0]), int(c["y"][1])
+    if my == 0:
+        return False
+    while not my & 1:
+        my >>= 1
+        ey += 1
+    return ey == -1 and abs(my) >= 2 ** 13
+
+
+
+@predicate("qr_no_convergence_repeated_eigenvalues")
+def _qr_no_conv(inp):
+    """C31: the shifted QR iteration of eigen.py gives up (RuntimeError 'qr: failed to converge') on matrices with repeated
+    eigenvalues at some precisions"""
+    res = inp.get("result") or {}
+    return inp.get("cls") == "repeated" and res.get("exc") == "RuntimeError" and str(res.get("msg", "")).startswith("qr: failed to converge")
+
+
 import special_findings  # noqa: E402  (C18/C19/C22 predicates; must stay at the end of this file)
